@@ -74,9 +74,17 @@ def Property.chunks (p : Property) : List (Except SerErr Bytes) :=
   | .pair, .p k v => [lenPrefixed k, lenPrefixed v]
   | _, _ => [.error .custom]
 
+/-- All chunks concatenated, or the first failure. -/
+def catChunks : List (Except SerErr Bytes) → Except SerErr Bytes
+  | [] => .ok []
+  | .error e :: _ => .error e
+  | .ok x :: cs =>
+    match catChunks cs with
+    | .ok r => .ok (x ++ r)
+    | .error e => .error e
+
 /-- Unbounded encoding of one property (all chunks concatenated) when no chunk fails. -/
-def Property.encode (p : Property) : Except SerErr Bytes :=
-  p.chunks.foldl (fun acc c => do let a ← acc; let x ← c; pure (a ++ x)) (.ok [])
+def Property.encode (p : Property) : Except SerErr Bytes := catChunks p.chunks
 
 /-! ### Decoding one property (`Property::deserialize` on an `MqttDeserializer`) -/
 
